@@ -12,7 +12,7 @@ static char owed[2][4096]; static bool owed_set[2];
 static unsigned hold_statuses;            /* bit0: OK requested, bit1: ERROR requested */
 static int pend_retry[2];                 /* byte refused last time per producer, -1 none */
 static unsigned sched_r, sched_w;
-static long holds_seen, holds_with_input, releases_api, releases_event;
+static long holds_seen, holds_with_input, releases_api, releases_event, hold_release_step;
 static int hold_kind, hold_paths;
 static struct { int ci, type; } evq[32]; static int evq_n; static int ev_cur_ci = -1;     /* accepted events in acceptance order; the one whose unit is owed next */
 #define CHAIN_BUDGET 3
@@ -59,11 +59,16 @@ static void on_write(bool isA, char c, bool accepted)
 }
 static void on_unit(bool isA, bool raw, const char *text, size_t len, bool lead_crlf, bool trail_crlf)
 {
-        (void)len; (void)lead_crlf; (void)trail_crlf;
+        (void)len;
         int p = isA ? 0 : 1;
         bool code = isA && !raw && (strcmp(text, "OK") == 0 || strcmp(text, "ERROR") == 0);
         if (raw) { CNT("list_units"); return; }
         if (code) {
+                {       /* the host reads the wire: the bytes of a result code (all but the one being written right now) are the last bytes written, all by the command producer */
+                        size_t k = (lead_crlf ? 2 : 1) + strlen(text) + (trail_crlf ? 2 : 1) - 1; bool torn = OUTN < k;
+                        for (size_t q = 0; !torn && q < k; q++) if (OUTP[OUTN - 1 - q] != 'A') torn = true;
+                        if (torn && OUTN < OUTCAP - 8) viol("C01", "result-code-torn-on-the-wire", "result code %s is not contiguous on the wire: bytes of the event producer lie inside it", text);
+                }
                 if (RESULT_CODES > LINES_DONE) viol("C01", "code-without-line", "result code %s completed while no non-blank line is outstanding (%ld codes, %ld lines)", text, RESULT_CODES, LINES_DONE);
                 if (owed_set[0]) { viol("C11", "unit-lost", "result code emitted while the data unit \"%.40s\" handed back by a handler was never emitted", owed[0]); owed_set[0] = false; }
                 if (!taint_hold) {
@@ -147,6 +152,11 @@ static cat_return_state eng_policy(struct hcall *h)
                 if (pr_pct(&H, 50) && h->max >= 12) { int k = snprintf((char *)h->data, h->max, "~%u", payload_seq++); *h->psize = (size_t)k; }
         }
         maybe_trigger();
+        if (pr_pct(&H, 15)) {      /* the two queries documented as lock-free may be called from a handler (e.g. to avoid raising a duplicate event) */
+                (void)cat_is_unsolicited_event_buffered(W.at, W.cmd[pr_n(&H, (unsigned)W.ncmds)], (cat_cmd_type)((int)pr_n(&H, 5) - 1));      /* NONE, RUN, READ, WRITE, TEST */
+                (void)cat_get_processed_command(W.at, pr_pct(&H, 50) ? CAT_FSM_TYPE_ATCMD : CAT_FSM_TYPE_UNSOLICITED);
+                CNT("lock_free_queries_from_handlers");
+        }
         cat_return_state c = ENG_POLICY_OVERRIDE ? ENG_POLICY_OVERRIDE(h) : draw_code(h);
         if (rt && (c == CAT_RETURN_STATE_DATA_OK || c == CAT_RETURN_STATE_DATA_NEXT)) {
                 if (owed_set[h->fsm]) viol("C11", "unit-lost", "handler invoked again although the data unit \"%.40s\" was never emitted", owed[h->fsm]);
@@ -206,7 +216,14 @@ void eng_after_service(cat_status s)
 {
         if (s == CAT_STATUS_ERROR_MUTEX_UNLOCK && MX_FAIL_UNLOCK_AT >= 0 && MX_UNLOCKS == MX_FAIL_UNLOCK_AT + 1) { CNT("service_calls_with_an_injected_unlock_failure"); return; }      /* the harness made this unlock fail: the call did its work, only the status differs */
         if (s != CAT_STATUS_OK && s != CAT_STATUS_BUSY) viol("C15", "bad-service-status", "cat_service returned %d", (int)s);
-        if (HOLD_PHASE == 2) HOLD_PHASE = 3;          /* a pending release request is consumed by the call that just returned */
+        if (HOLD_PHASE == 2) { HOLD_PHASE = 3; hold_release_step = 0; }          /* a pending release request is consumed by the call that just returned */
+        if (HOLD_PHASE == 3 && WS.mode == SCH_EAGER) hold_release_step++;      /* service calls made with an always-ready output since the release was consumed */
+        if (HOLD_PHASE == 3 && !taint_hold && WS.mode == SCH_EAGER && hold_release_step > 4 * (long)(W.capA + W.capU) + 200) {
+                /* the output accepts every byte: the other producer can keep the line for one unit at most, then the result code of the released command goes out, however many events keep coming */
+                viol("C14", "result-withheld-after-release", "no result code after %ld service calls with an always-ready output since the release request was consumed", hold_release_step);
+                viol("C01", "line-never-answered", "the released command has no result code after %ld service calls with an always-ready output since its release (events keep coming)", hold_release_step);
+                HOLD_PHASE = 0;
+        }
         if (!taint_hold) {
                 cat_status hq = cat_is_hold(W.at);
                 bool want = HOLD_PHASE == 1;
